@@ -288,7 +288,7 @@ def run_C03(ctx):
     # boxes that need many thousands of rounds (an internal cap on the number of rounds would show here): nearly
     # unrelated sequences with a planted common subsequence of unique large values; a minimal script must use it
     huge = []
-    for n in tiered(ctx, [9000], [3000, 9000, 12000]):
+    for n in tiered(ctx, [9000, 35000], [3000, 9000, 12000, 35000]):
         a = [2 * i for i in range(n)]
         b = [2 * i + 1 for i in range(n)]
         ctx.rng.shuffle(a)
@@ -341,7 +341,7 @@ SPECS["C03"] = dict(
     run=run_C03,
     generators="raw and capture components, algorithms Myers and LCS, no deadline: exhaustive small worlds with "
                "sub-ranges, structured random pairs up to 100, Myers capture up to 250; the optimum is computed by the "
-               "extracted lcs_len (Check/Script.v); nearly unrelated sequences of 9000 (thorough: up to 12000) items with a "
+               "extracted lcs_len (Check/Script.v); nearly unrelated sequences of 9000 and 35000 items with a "
                "planted common subsequence, where a minimal script needs more than 8000 rounds and must use the planted items",
 )
 
@@ -976,6 +976,21 @@ SPECS["C06"] = dict(
 )
 
 
+def huge_swap_cases(ctx):
+    """66000 distinct lines on both sides (token counts whose product exceeds 2^32) with two adjacent lines
+    swapped in the middle and one changed: Myers and LCS break the tie differently, so the text diff must really
+    run the configured algorithm.  Checker only."""
+    n = 66000
+    lines = [b"l%05d\n" % i for i in range(n)]
+    new = list(lines)
+    k = n // 2
+    new[k], new[k + 1] = new[k + 1], new[k]
+    new[k + 500] = b"changed\n"
+    old, nw = b"".join(lines), b"".join(new)
+    ctx.count("textdiff:66000-lines-swap", 3)
+    return ["textdiff tok=lines alg=%s mode=bytes dl=- nlo=- old=%s new=%s" % (a, gen.hx(old), gen.hx(nw)) for a in "MLP"]
+
+
 def huge_distinct_cases(ctx):
     """65535 distinct lines on the old side, the same on the new side except that the first two lines are
     two further distinct ones: 65537 distinct tokens, more than a 16-bit numbering can hand out (a wrapped
@@ -1162,7 +1177,7 @@ def run_C14(ctx):
         idl.append("identify w=u8 or=0:%d nr=0:%d old=%s new=%s" % (len(a), len(b), gen.fmt_list(a), gen.fmt_list(b)))
         ctx.count("identify:u8-long-sides-with-repeats")
     C.evaluate(ctx, "identify", idl, rel, nontrivial=lambda comp, kv, impl: "oids=-" not in impl)
-    C.evaluate(ctx, "textdiff-65536-distinct", huge_distinct_cases(ctx), rel, x=False, cap=300, nontrivial=nontrivial_text)
+    C.evaluate(ctx, "textdiff-65536-distinct", huge_distinct_cases(ctx) + huge_swap_cases(ctx), rel, x=False, cap=300, nontrivial=nontrivial_text)
 
 
 SPECS["C14"] = dict(
@@ -1705,6 +1720,10 @@ def run_C19(ctx):
                     m = min(n, 600)
                     a = gen.rand_seq(ctx.rng, m, 4)
                     b = gen.rand_seq(ctx.rng, m, 4)
+                if rep % 2 == 1:
+                    # item values with many trailing zero bits (what a multiplicative hash maps to one bucket)
+                    a = [x << 20 for x in a]
+                    b = [x << 20 for x in b]
                 for alg in "MP":
                     big.append(gen.raw_line(alg, a, b))
                     ctx.count("raw:large-%d" % n)
@@ -1739,7 +1758,7 @@ SPECS["C19"] = dict(
         note='Trusted: Coq 8.16.1 kernel; extraction with ExtrOcamlBasic only; OCaml driver and Rust harness glue; the tie of the hand-written model to /repo is the correspondence check (differential testing on the generated inputs, rebuilt from the working tree every run), not a proof about the Rust source. usize wrap-around is not modelled.',
         technique='exact count correspondence model/implementation + bound checked on large structured inputs; Coq proof of the count bounds for Myers (C=6) and Patience (C=12)',
     ),
-    relevant=lambda comp, kv: {"no_panic", "work_bound"},
+    relevant=lambda comp, kv: {"no_panic", "work_bound", "same_side_work"},
     run=run_C19,
     generators="raw component with a counting PartialEq, algorithms Myers and Patience, no deadline: the exhaustive "
                "small worlds and random pairs up to 120 (comparison counts compared with the model exactly), and "
